@@ -2,6 +2,7 @@ package main
 
 import (
 	"bytes"
+	"encoding/json"
 	"fmt"
 	"log"
 	"strings"
@@ -17,7 +18,11 @@ import (
 func init() {
 	register("C18", checkC18)
 	replayers["c18/cpm"] = func(c *Ctx, raw []byte) []string {
-		return []string{"C18 cases are call sequences; re-run `bin/check C18` (fast, deterministic); see the diff in the file"}
+		var cs c18Case
+		if err := json.Unmarshal(raw, &cs); err != nil {
+			return []string{"bad replay file"}
+		}
+		return c18Run(cs.Calls)
 	}
 }
 
